@@ -60,6 +60,10 @@ CHECKS = {
              text="TLC explores the decoder transition system forward: every sequence of conformant orders (all kinds, regular / lite / mega-mega / explicit-run forms, set variants, dithered runs, FG/BG masks, specials) that fills a tiny image is an (encoding, image) pair, 78 k pairs at 16 bpp plus every planar segmentation for tiny images; the stepwise construction is checked against the one-shot decoder (invariant Agree). Random conformant encodings up to 64x16 with all long-run forms, raw bitmaps (row flip) and all 65536 5-6-5 colours are decoded by TLC (Expect.tla). The implementation must return exactly the expected bytes.",
              note="Trusted: TLC and my transcription of MS-RDPBCGR 2.2.9.1.1.3.1.2.4 / MS-RDPEGDI 2.2.2.5.1. Conformance class stated in the evidence.",
              ref="DESIGN.md section 6 C09"),
+ "C19": dict(cat="exploration", tech="TLA+ reference Blit.tla; TLC enumerates all small geometries with the exact write list of in-window paints (Gen_Blit); the real fast_bitmap_transfer (included from the binary's source) runs on a guarded window buffer; buffer, guards and outcome compared with the specification",
+             text="All window sizes 1..3 x 1..3 (1..4 thorough), all rectangles with coordinates 0..4 (in range, out of range, inverted), all image sizes 0..4 = 140 k geometries enumerated by TLC, with data-length variants and both depths, plus random large geometries with coordinates at 0 / max-1 / max / max+1 / 65535. For rectangles inside the window a successful paint must change exactly the pixels Blit!Writes lists, to exactly the decoded source pixels; for every geometry no panic, no write behind the buffer (guard words), no success when the decoded image is too small.",
+             note="TLA+ cannot observe memory: OOB writes are seen through guard words and the nothing-else-changed comparison, OOB reads only when they fault or change the result. Dev profile.",
+             ref="DESIGN.md section 6 C19"),
 }
 
 NOT_YET = {
